@@ -96,6 +96,12 @@ def gen_send():
     L.append("/-- enum MHD_RequestTerminationCode values the reply path reports (microhttpd.h) -/")
     for k in ("termCompletedOk", "termWithError"):
         L.append("def %s : Nat := %s" % (k, v[k]))
+    m100 = re.search(r'#define\s+HTTP_100_CONTINUE\s+"((?:[^"\\]|\\.)*)"', cs)
+    if not m100:
+        raise RuntimeError("HTTP_100_CONTINUE not found in connection.c")
+    msg = m100.group(1).encode().decode("unicode_escape").encode("latin-1")
+    L.append("/-- the interim message of the CONTINUE_SENDING state (connection.c: HTTP_100_CONTINUE) -/")
+    L.append("def http100Continue : List UInt8 := [%s]" % ", ".join(str(b) for b in msg))
     L.append("/-- errno values the fault plan can inject, with the classification macros of mhd_sockets.h evaluated on each -/")
     L.append("inductive Errno where")
     for e in ERRNOS:
@@ -156,9 +162,12 @@ class Req:
 
 
 class Scenario:
-    def __init__(self, name, resps, reqs, mode="select", mem=0, split=None, note="", poolfail=False, readerr=False, cfgx=""):
+    def __init__(self, name, resps, reqs, mode="select", mem=0, split=None, note="", poolfail=False, readerr=False, cfgx="", interim=False):
         self.name, self.resps, self.reqs, self.mode, self.mem, self.split, self.note = name, resps, reqs, mode, mem, split, note
         self.cfgx = cfgx             # further daemon options (harness `cfg` words)
+        self.interim = interim       # Expect: 100-continue with the body held back: the interim message is part of the reply stream
+        if interim and split is None:
+            self.split = reqs[0].raw.index(b"\r\n\r\n") + 4     # the complete header first, the body after the interim message
         self.poolfail = poolfail     # the connection's memory pool is too small on purpose: the reply is cut short
         self.readerr = readerr       # the content reader reports MHD_CONTENT_READER_END_WITH_ERROR mid-body: cut short + closed
 
@@ -224,8 +233,32 @@ def corpus(tier):
     S.append(Scenario("post-cl-split", {1: "kind=static size=30"}, [Req(method="POST", body=up, beh="f=c u=all l=r1")], split=90))
     S.append(Scenario("post-chunked", {1: "kind=static size=30"}, [Req(method="POST", body=up, chunked=True, beh="f=c u=all l=r1")]))
     S.append(Scenario("post-chunked-split", {1: "kind=static size=30"}, [Req(method="POST", body=up, chunked=True, beh="f=c u=5,all l=r1")], split=100))
+    # Expect: 100-continue, the body held back until the interim message has been sent (CONTINUE_SENDING is a send
+    # phase of its own: accumulated offset, switch to BODY_RECEIVING when offset = length); identity and chunked
+    # uploads x final reply kinds
+    EXP = b"Expect: 100-continue\r\n"
     S.append(Scenario("post-100", {1: "kind=static size=30"},
-                      [Req(method="POST", body=up, beh="f=c u=all l=r1", extra=b"Expect: 100-continue\r\n")], split=70))
+                      [Req(method="POST", body=up, beh="f=c u=all l=r1", extra=EXP)], interim=True))
+    S.append(Scenario("post-100-chunked-up", {1: "kind=static size=30"},
+                      [Req(method="POST", body=up, chunked=True, beh="f=c u=all l=r1", extra=EXP)], interim=True))
+    S.append(Scenario("post-100-cbchunked", {1: "kind=cb-unknown size=500 cbmax=300 f=%s:%s" % (b"X-Sum".hex(), b"abc".hex())},
+                      [Req(method="POST", body=up, beh="f=c u=7,all l=r1", extra=EXP)], interim=True))
+    S.append(Scenario("post-100-iovec", {1: "kind=iovec size=900 iovn=4"},
+                      [Req(method="POST", body=up, beh="f=c u=all l=r1", extra=EXP)], interim=True))
+    S.append(Scenario("post-100-fd", {1: "kind=fd size=700"},
+                      [Req(method="POST", body=up, chunked=True, beh="f=c u=all l=r1", extra=EXP)], interim=True))
+    S.append(Scenario("post-100-pipelined", {1: "kind=copy size=60", 2: "kind=static size=40"},
+                      [Req(method="POST", body=up, beh="f=c u=all l=r1", extra=EXP), Req(beh="f=c l=r2")], interim=True,
+                      mode="epoll"))
+    S.append(Scenario("post-100-late", {1: "kind=static size=30"},
+                      [Req(method="POST", body=up, beh="f=c u=all l=r1", extra=EXP)], split=70,
+                      note="the body arrives together with the end of the header: no interim message"))
+    # a header block much larger than what one send takes (repeated short counts), trailers after a chunked body
+    S.append(Scenario("big-hdr", {1: "kind=static size=300 "
+                                  + " ".join("h=%s:%s" % ((b"X-Pad-%d" % i).hex(), (b"v" * 900).hex()) for i in range(3))}, [Req()]))
+    S.append(Scenario("big-hdr-cb", {1: "kind=cb-unknown size=700 cbmax=300 "
+                                     + " ".join("h=%s:%s" % ((b"X-Pad-%d" % i).hex(), (b"w" * 700).hex()) for i in range(3))
+                                     + " f=%s:%s f=%s:%s" % (b"X-T1".hex(), (b"t" * 200).hex(), b"X-T2".hex(), b"u".hex())}, [Req()]))
     S.append(Scenario("post-bad-chunk", {1: "kind=static size=30"},
                       [Req(method="POST", body=up[:6], chunked=True, malformed=True, beh="f=c u=all l=r1")]))
     S.append(Scenario("pipe-get-get", {1: "kind=static size=40", 2: "kind=cb-unknown size=300 cbmax=200"},
@@ -340,6 +373,7 @@ class CaseLog:
         self.resp_refs = []      # (rid, reference count, when) — 1 = only the application's own reference is left
         self.reader_err = []     # indices of "reader … -> err" lines
         self.alloc_site = None   # (library function whose allocation failed, libc entry point)
+        self.wedged = []         # spin reports of `settle`: send called round after round, no byte moved
         last_handler = None
         for i, ln in enumerate(lines):
             try:
@@ -399,6 +433,8 @@ class CaseLog:
             self.reader0.append(i)
         elif k == "reader" and ln.endswith("-> err"):
             self.reader_err.append(i)
+        elif k == "wedged":
+            self.wedged.append(ln)
         elif k == "resp-ref":
             self.resp_refs.append((d["rid"], int(d["rc"]), d.get("at", "?")))
         elif k == "queued":
@@ -467,12 +503,17 @@ def oracle(sc, plan, ref, log, stderr_txt):
         return bad
     for b in log.bad:
         bad.append((re.sub(r"\d+", "N", b.split()[0] + " reported by the harness"), b))
-    # no wedge: the event loop went quiet by itself
+    # no wedge: no spin (send called round after round on a writable socket without a byte moving) …
+    for wl in log.wedged:
+        bad.append(("wedged: the library keeps calling send without progress (spin), the exchange never completes", wl))
+    # … and the event loop went quiet by itself within the bounded number of rounds
     for (_, rounds, quiet) in log.settled:
         if quiet < 3:
             bad.append(("no quiescence: still busy after N rounds", "settle ran %d rounds" % rounds))
-    # the bytes delivered to the client are a prefix of the fault-free stream
-    if not diverged and not prefix_ok(log.wire, ref.wire):
+    # the bytes delivered to the client are a prefix of the fault-free stream (for exchanges whose interim
+    # "100 Continue" is deterministic — body held back — the interim message is part of that stream)
+    canon = (lambda b: b) if sc.interim else canon_stream
+    if not diverged and not (ref.wire.startswith(log.wire) if sc.interim else prefix_ok(log.wire, ref.wire)):
         n = next((i for i in range(min(len(ref.wire), len(log.wire))) if ref.wire[i] != log.wire[i]), min(len(ref.wire), len(log.wire)))
         bad.append(("client stream is not a prefix of the fault-free stream",
                     "first difference at byte %d of %d (fault-free %d bytes): got …%s expected …%s"
@@ -520,7 +561,7 @@ def oracle(sc, plan, ref, log, stderr_txt):
         bad.append(("accepted connection was never started", ""))
     # transient faults alone never change what is finally delivered
     if not permanent and not alloc_fired:
-        if canon_stream(log.wire) != canon_stream(ref.wire):
+        if canon(log.wire) != canon(ref.wire):
             bad.append(("transient faults changed the delivered stream",
                         "delivered %d bytes, fault-free %d bytes" % (len(log.wire), len(ref.wire))))
         for i in range(len(sc.reqs)):
@@ -702,7 +743,22 @@ def model_script(sc, ref, log):
         prev = s
     script, expect = [], []
     gi = 0
-    # "100 Continue" is a fixed string sent by MHD_send_data_ alone, and whether it is sent depends on timing
+    # the interim "100 Continue" phase: a send phase of its own (Mhd.Model.SendCont), replayed call by call
+    for g in [g for g in groups if g[0]["st"] == "continue-sending"]:
+        script.append("cont")
+        expect.append(None)
+        for s_ in g:
+            if s_["ret"].startswith("E"):
+                ans = ERRNO_NAME.get(int(s_["ret"][1:]), "EIO")
+            else:
+                ans = "full" if int(s_["ret"]) >= int(s_["req"]) else "short:%d" % int(s_["ret"])
+            script.append("ccall %s" % ans)
+            expect.append("sys k=%s req=%s st=%s co=%s -> %s" % (s_["k"], s_["req"], s_["st"], s_.get("co", "?"), s_["ret"]))
+        # where the real connection is after the turn of the last call: the first `wst` line that follows
+        after = next((kvs(l.split()[1:]).get("st") for l in log.lines[g[-1]["idx"]:] if l.startswith("wst ")), None)
+        script.append("cend")
+        expect.append(("cend", sum(int(s_["ret"]) for s_ in g if not s_["ret"].startswith("E")),
+                       any(s_["inj"] != "-" and is_permanent(s_["k"], s_["inj"]) for s_ in g), after))
     groups = [g for g in groups if g[0]["st"] != "continue-sending"]
     replies = [r for r in replies if not r["interim"]]
     for rep in replies:
@@ -862,9 +918,13 @@ class Spec:
                          "Mhd.C07.session_prefix", "Mhd.C07.transient_fair_delivers_all", "Mhd.C07.release_exactly_once",
                          "Mhd.C07.permanent_failure_releases_once", "Mhd.C07.sendfile_hard_error_closes",
                          "Mhd.C07.upload_complete", "Mhd.C07.upload_transient_unchanged", "Mhd.C07.upload_closed_stops",
-                         "Mhd.C07.upload_hard_error_closes"]
+                         "Mhd.C07.upload_hard_error_closes",
+                         "Mhd.C07.interim_delivered_prefix", "Mhd.C07.interim_transient_never_closes",
+                         "Mhd.C07.interim_transient_delivers_all", "Mhd.C07.interim_fair_completes",
+                         "Mhd.C07.interim_hard_error_closes", "Mhd.C07.exchange_delivered_prefix",
+                         "Mhd.C07.exchange_fair_delivers_all"]
     trusted_base = ["Lean 4 kernel", "axioms: propext, Classical.choice, Quot.sound at most (audited per theorem)",
-                    "hand-written model lean/Mhd/Model/Send.lean + SendConn.lean, tied to mhd_send.c / connection.c by this run's "
+                    "hand-written model lean/Mhd/Model/Send.lean + SendConn.lean + SendCont.lean (interim 100 Continue phase), tied to mhd_send.c / connection.c by this run's "
                     "call-by-call correspondence under fault injection",
                     "tools/props/C07.py gen_send (errno classification macros, MHD_ERR codes, chunk limits regenerated)",
                     "harness/h_fault.c (libc interposition, --wrap=malloc/calloc, white-box read of MHD_Response.reference_count, "
@@ -948,6 +1008,19 @@ class Spec:
                     d = kvs(g.split())
                     if (d.get("offered"), d.get("took")) != (str(e[1]), str(e[2])):
                         diffs.append("upload call: code offered %d / handler took %d, model: %s" % (e[1], e[2], g))
+                elif isinstance(e, tuple) and e[0] == "cend":
+                    d = kvs(g.split())
+                    outb = b"" if d.get("out", "-") == "-" else bytes.fromhex(d["out"])
+                    if len(outb) != e[1] or not CONT.startswith(outb) or "FAULT" in g:
+                        diffs.append("interim message: the socket took %d bytes, model: %s" % (e[1], g[:120]))
+                    if e[2] and d.get("st") != "closed":
+                        diffs.append("interim phase: model not closed after a hard error: " + g[:80])
+                    # the accumulated offset decides: complete message <=> the connection has left CONTINUE_SENDING
+                    if e[3] is not None and d.get("st") == "body-receiving" and e[3] == "continue-sending":
+                        diffs.append("interim message complete (model: body-receiving) but the connection is still in continue-sending")
+                    if e[3] is not None and d.get("st") == "continue-sending" and e[3] not in ("continue-sending", "closed"):
+                        diffs.append("interim message incomplete (model: continue-sending) but the connection moved on to " + e[3])
+                    res.setdefault(key, {})["interim"] = res.get(key, {}).get("interim", 0) + 1
                 elif isinstance(e, tuple) and e[0] == "uend":
                     d = kvs(g.split())
                     hb = b"" if d.get("handed", "-") == "-" else bytes.fromhex(d["handed"])
@@ -1042,8 +1115,31 @@ class Spec:
                         bnd.update((x["k"], int(x["n"]), int(x["ie"]) * m) for m in (1, 2))
                     if x["st"] == "chunked-body-ready":
                         bnd.update((x["k"], int(x["n"]), int(x["req"]) - d) for d in (1, 2))
+            for x in lg.sys:
+                if x["k"] in KIND_SEND:
+                    # trailers / the zero-size last chunk: short counts inside "0\r\n", inside a trailer line, one before the end
+                    if x["st"] == "footers-sending":
+                        bnd.update((x["k"], int(x["n"]), v_) for v_ in (1, 2, 3, 4, int(x["req"]) // 2, int(x["req"]) - 1))
+                    # header complete + body partial in the combined send; a cut in the middle of the header block
+                    if x["st"] == "headers-sending" and x["so"] == "0":
+                        bnd.update((x["k"], int(x["n"]), v_) for v_ in (int(x["ao"]) // 2, (int(x["ao"]) + int(x["req"])) // 2, int(x["req"]) - 1))
+                    # the interim "100 Continue" message: EVERY short count
+                    if x["st"] == "continue-sending" and x.get("co") == "0":
+                        for n_ in range(1, int(x["req"])):
+                            plans.append((s, ([(x["k"], int(x["n"]), "short %d" % n_)], None)))
+                            plans.append((s, ([(x["k"], int(x["n"]), "short %d" % n_), (x["k"], int(x["n"]) + 1, "short 1")], None)))
+                            stats["interim_points"] = stats.get("interim_points", 0) + 2
+                        for fk in ("eagain", "eintr", "econnreset", "epipe", "enotconn", "ebadf"):
+                            plans.append((s, ([(x["k"], int(x["n"]), "short 3"), (x["k"], int(x["n"]) + 1, fk)], None)))
+                            stats["interim_points"] = stats.get("interim_points", 0) + 1
+            # a header block that needs many sends: the same short count again and again
+            if s.name.startswith("big-hdr"):
+                for n_ in (1, 200, 700):
+                    for k_ in sorted(kk for kk in counts if kk in KIND_SEND):
+                        plans.append((s, ([(k_, i_, "short %d" % n_) for i_ in range(1, 9)], None)))
+                        stats["multi"] += 1
             for (k, i, n) in sorted(bnd):
-                if n >= 1 and i <= 3:
+                if n >= 1 and (i <= 3 or s.name.startswith("big-hdr")):
                     plans.append((s, ([(k, i, "short %d" % n)], None)))
                     stats["fault_points"] += 1
                     # … followed by one more short count, so that the state left behind is exercised
@@ -1117,6 +1213,7 @@ class Spec:
             stats["model_calls"] += sum(1 for l in sc_ if l.startswith("call"))
             r = mres.get(key, {})
             stats["book_compared"] = stats.get("book_compared", 0) + r.get("book", 0)
+            stats["interim_compared"] = stats.get("interim_compared", 0) + r.get("interim", 0)
             if isinstance(key, int):
                 s, p = plans[key]
                 lg = results[key][0]
@@ -1156,10 +1253,12 @@ class Spec:
                        "(scenario, fault plan) pairs; every run is checked by the oracle and replayed call-by-call on the Lean model",
                "scenarios": [s.name for s in S],
                "single_fault_points": stats["fault_points"], "single_alloc_points": stats["alloc_points"],
-               "multi_fault_plans": stats["multi"], "fault_kinds": kinds, "faults_fired": stats["fired"],
+               "multi_fault_plans": stats["multi"], "interim_100_continue_fault_plans": stats.get("interim_points", 0),
+               "fault_kinds": kinds, "faults_fired": stats["fired"],
                "runs_connection_closed": stats["closed_runs"], "runs_stream_complete": stats["complete_runs"],
                "model_replies_replayed": stats["model_replies"], "model_calls_compared": stats["model_calls"],
                "upload_calls_compared": stats.get("upload_calls", 0),
+               "interim_phases_replayed": stats.get("interim_compared", 0),
                "close_path_replies_compared": stats.get("book_compared", 0),
                "close_path_note": "replies whose model run ended (closed / done): the model's completion notifications (count + termination "
                                   "code) equal the completion callbacks the application got for that request",
